@@ -573,6 +573,7 @@ func (c *fnCtx) execBlock(b *ssa.BasicBlock, st *State) {
 			c.setEdge(b, b.Succs[0], st, "true")
 			return
 		case *ssa.Return:
+			c.fireAnchors(st, b, in)
 			var rs []SymVal
 			for _, r := range in.Results {
 				rs = append(rs, c.val(st, r))
